@@ -1,150 +1,181 @@
-(* C16_Props.v — property C16 over the array memory of SliceMem.v and the
-   helper transcriptions of C16_Model.v.
+(* C16_Props.v — property C16 over the object memory of SliceMem.v (arrays and
+   maps) and the helper transcriptions of C16_Model.v.
 
-   A call is a value [c : hcall] (18 helpers, see C16_Model); [run_call slack c]
-   runs it in a memory [m] (list of arrays) and yields result slices and the
-   memory afterwards, or [None] when Go would panic.  [slack] — how much spare
-   capacity a reallocating append leaves — is universally quantified: nothing
-   depends on the runtime's growth policy.  No validity assumption is made on
-   the argument descriptors either: the statements hold for every descriptor,
-   including slices with spare capacity, offsets, overlapping arguments and
-   the same slice passed twice.
+   A call is a value [c : hcall]: one constructor per exported helper of
+   slice.go, filter.go, find.go, math.go, range.go, shuffle.go and map.go that
+   takes a slice or a map, plus heap.FromSlice and heap.Sort (76 constructors,
+   listed in notes/C16.md).  [run_call slack c] runs it in a memory [m] (a list
+   of objects: arrays and maps) and yields the references it returns and the
+   memory afterwards, or [None] when Go would panic.  What Go leaves open is
+   universally quantified: [slack] (the spare capacity a reallocating append
+   leaves), the random numbers of Shuffle (an argument of HShuffle), the
+   iteration order of maps (the stored order of the entries of the memory m).
+   No validity assumption is made on the descriptors: the statements hold for
+   every slice descriptor and map id, including slices with spare capacity,
+   offsets, overlapping arguments and the same argument passed twice.
+   Arguments of type [][]T / []map[K]V are slices in the memory as well (cells
+   = codes of the elements, decoded by a function [tbl] that is universally
+   quantified too), so "unchanged" covers the order of their elements and their
+   spare capacity.  Callbacks are Gallina functions, i.e. pure.
 
-   Breadth (stated honestly): these theorems cover the helpers that are
-   re-expressed over the memory — Merge (repaired), Filter, Map, Unique,
-   UniqueBy, Partition, Intersection, Without, Difference, DropWhile,
-   DropRightWhile, ToSlice, Drop, Chunk, Reject, Reverse, heap.FromSlice,
-   heap.Sort; Omit, OmitBy, PartitionMap and three representative map builders
-   over the map memory.  The other exported helpers are covered by the sentinel
-   harness only (harness_only in the evidence). *)
+   The classes of the property's statement are a function [kind_of] of the call:
+     KInPlaceS s   Reject, Reverse, heap.FromSlice, heap.Sort          (s: the slice argument)
+     KInPlaceM W   Omit, OmitBy (W = that map); PartitionMap (W = its argument maps: it stores the
+                   entry it has just read — theorem 4c shows that this changes nothing)
+     KViewS s      Drop, Chunk                                          (re-slice the argument)
+     KViewM W      FilterMapCollection, Filter2DMapCollection           (return the argument maps)
+     KFresh        all the others (65 constructors)
+   [not_in_place c] = the kind is not one of the first two.
 
-From Gogu Require Import Base SliceMem C14_Model C14_Proofs C16_Model C16_Proofs.
+   Strings are immutable in Go (language guarantee): the string helpers cannot
+   disturb an argument or an earlier result and are not modelled. *)
+
+From Gogu Require Import Base C14_Model SliceMem C16_Model C16_Proofs.
 Local Open Scope nat_scope.
 
-(* ---- frame: a helper that is not in-place changes no array that existed
+(* ---- 1. frame: a helper that is not in-place changes no object that existed
    before the call — the old memory is a prefix of the new one.  This is both
    clauses of the property at once: the arguments (complete backing arrays,
-   including the capacity region beyond len) are unchanged, and so is every
-   earlier result, since it lives in an array that already exists.  Its own
-   results live in arrays allocated by the call (or are empty without
-   capacity), except for the views. ---- *)
+   including the capacity region beyond len; complete maps; the cells of a
+   [][]T or []map argument) are unchanged, and so is every earlier result,
+   since it lives in an object that already exists.  What it returns lives in
+   objects allocated by the call (or is empty without capacity, or a plain
+   value), except for the views. ---- *)
 Theorem C16_frame : forall slack c m rs m',
-  in_place_arg c = None ->
+  not_in_place c ->
   run_call slack c m = Some (rs, m') ->
-  (exists new_arrays, m' = m ++ new_arrays) /\
-  (view_arg c = None ->
-   Forall (fun r => length m <= s_arr r \/ (s_len r = 0 /\ s_cap r = 0)) rs).
-Proof.
-  intros slack c m rs m' Hip Hrun.
-  destruct (view_arg c) as [s|] eqn:Hv.
-  - destruct (run_call_view_pure slack c s Hv m rs m' Hrun) as [-> _].
-    split; [exists []; now rewrite app_nil_r|discriminate].
-  - destruct (run_call_fresh_safe slack (fun _ _ => False) (length m) c Hip Hv m rs m' (le_n _) Hrun) as [S F].
-    split; [now apply same_outside_frame|]. intros _. exact F.
-Qed.
+  (exists new_objects, m' = m ++ new_objects) /\
+  (kind_of c = KFresh -> Forall (fresh_ref (length m)) rs).
+Proof. exact c16_frame. Qed.
 Print Assumptions C16_frame.
 
-(* the same, array by array and slice by slice *)
+(* the same, object by object and slice by slice *)
 Theorem C16_frame_arrays_and_reads : forall slack c m rs m',
-  in_place_arg c = None ->
+  not_in_place c ->
   run_call slack c m = Some (rs, m') ->
   (forall id, id < length m -> arr_of m' id = arr_of m id) /\
-  (forall s, s_arr s < length m -> read_all m' s = read_all m s).
-Proof.
-  intros slack c m rs m' Hip Hrun.
-  destruct (C16_frame slack c m rs m' Hip Hrun) as [Hf _]. split.
-  - intros id Hid. now apply frame_arr_of.
-  - intros s Hs. now apply frame_read_all.
-Qed.
+  (forall s, s_arr s < length m -> read_all m' s = read_all m s) /\
+  (forall id, id < length m -> map_of m' id = map_of m id).
+Proof. exact c16_frame_arrays_and_reads. Qed.
 Print Assumptions C16_frame_arrays_and_reads.
 
-(* ---- views: Drop and Chunk do not write at all, and what they return shows a
-   part of what the argument shows (or is the empty literal) ---- *)
+(* ---- 2. views: Drop and Chunk do not write at all, and what they return shows
+   a part of what the argument shows (or is the empty literal);
+   FilterMapCollection / Filter2DMapCollection do not write and return (some of)
+   the argument maps ---- *)
 Theorem C16_views_never_write : forall slack c s m rs m',
-  view_arg c = Some s ->
+  kind_of c = KViewS s ->
   run_call slack c m = Some (rs, m') ->
   m' = m /\
-  Forall (fun r => (s_arr r = s_arr s /\ s_off s <= s_off r /\ s_off r + s_len r <= s_off s + s_len s)
-                   \/ r = empty_slice) rs.
+  Forall (slice_ref (fun r => (s_arr r = s_arr s /\ s_off s <= s_off r /\ s_off r + s_len r <= s_off s + s_len s)
+                              \/ r = empty_slice)) rs.
 Proof. intros slack c s m rs m' Hv Hrun. exact (run_call_view_pure slack c s Hv m rs m' Hrun). Qed.
 Print Assumptions C16_views_never_write.
 
-(* ---- in place: Reject, Reverse, heap.FromSlice, heap.Sort change nothing but
-   cells inside the window [off, off+len) of the array of THAT argument: no new
-   length for any array, no other array, not the cells before the window, not
-   the capacity region behind it.  What they return is a prefix window of the
-   argument or (Sort's copy) lives in a new array. ---- *)
+Theorem C16_map_views_never_write : forall slack c W m rs m',
+  kind_of c = KViewM W ->
+  run_call slack c m = Some (rs, m') ->
+  m' = m /\ Forall (map_ref W) rs.
+Proof. intros slack c W m rs m' Hv Hrun. exact (run_call_view_maps_pure slack c W Hv m rs m' Hrun). Qed.
+Print Assumptions C16_map_views_never_write.
+
+(* ---- 3. in place on a slice: Reject, Reverse, heap.FromSlice, heap.Sort change
+   nothing but cells inside the window [off, off+len) of the array of THAT
+   argument: no new length for any object, no other object, not the cells
+   before the window, not the capacity region behind it.  What they return is a
+   prefix window of the argument or (Sort's copy) lives in a new array. ---- *)
 Theorem C16_in_place_only_that_arg : forall slack c s m rs m',
-  in_place_arg c = Some s ->
+  kind_of c = KInPlaceS s ->
   run_call slack c m = Some (rs, m') ->
   length m <= length m' /\
   (forall id, id < length m ->
      length (arr_of m' id) = length (arr_of m id) /\
      forall i, ~ (id = s_arr s /\ s_off s <= i < s_off s + s_len s) -> cell m' id i = cell m id i) /\
-  Forall (fun r => (s_arr r = s_arr s /\ s_off r = s_off s /\ s_len r <= s_len s) \/ length m <= s_arr r) rs.
-Proof.
-  intros slack c s m rs m' Hip Hrun.
-  destruct (run_call_in_place_safe slack (length m) c s Hip m rs m' (le_n _) Hrun) as [(_ & Hlen & H) F].
-  split; [exact Hlen|]. split; [exact H|exact F].
-Qed.
+  Forall (slice_ref (fun r => (s_arr r = s_arr s /\ s_off r = s_off s /\ s_len r <= s_len s) \/ length m <= s_arr r)) rs.
+Proof. exact c16_in_place_only_that_arg. Qed.
 Print Assumptions C16_in_place_only_that_arg.
 
 Theorem C16_in_place_other_arrays_untouched : forall slack c s m rs m' id,
-  in_place_arg c = Some s ->
+  kind_of c = KInPlaceS s ->
   run_call slack c m = Some (rs, m') ->
   id < length m -> id <> s_arr s -> arr_of m' id = arr_of m id.
-Proof.
-  intros slack c s m rs m' id Hip Hrun Hid Hne.
-  destruct (run_call_in_place_safe slack (length m) c s Hip m rs m' (le_n _) Hrun) as [S _].
-  now apply (same_outside_win_other_array s).
-Qed.
+Proof. exact c16_in_place_other_arrays_untouched. Qed.
 Print Assumptions C16_in_place_other_arrays_untouched.
 
-(* ---- a result, once returned, is not altered by a later call on the same
-   arguments.  c1 runs in m0, c2 afterwards; r is a result of c1 that is not a
-   view.  (a) if c2 is not in-place, r reads the same — as does every slice
-   that existed, views included; (b) if c2 is in-place on an argument s that
-   existed before c1, r still reads the same: it lives in a newer array. ---- *)
-(* side condition: r names an array that exists when c1 returns (or is empty) —
-   true of every slice a helper returns; without it a made-up descriptor could
-   name an array that c2 is about to allocate *)
+(* ---- 4. in place on a map: Omit, OmitBy (and PartitionMap) leave every object
+   other than their argument maps alone — in particular the key slice of Omit
+   and the []map argument of PartitionMap — and return those maps ---- *)
+Theorem C16_in_place_maps_only_those : forall slack c W m rs m',
+  kind_of c = KInPlaceM W ->
+  run_call slack c m = Some (rs, m') ->
+  length m <= length m' /\
+  (forall id, id < length m -> ~ W id -> arr_of m' id = arr_of m id) /\
+  Forall (map_ref W) rs.
+Proof. exact c16_in_place_maps_only_those. Qed.
+Print Assumptions C16_in_place_maps_only_those.
+
+(* 4b. Omit / OmitBy return the argument map, only ever remove entries from it,
+   and change no other object at all *)
+Theorem C16_omit_only_removes : forall slack coll keys m rs m',
+  coll < length m ->
+  run_call slack (HOmit coll keys) m = Some (rs, m') ->
+  rs = [RM coll] /\ length m' = length m /\ incl (map_of m' coll) (map_of m coll) /\
+  (forall id, id <> coll -> arr_of m' id = arr_of m id).
+Proof. exact c16_omit_only_removes. Qed.
+Print Assumptions C16_omit_only_removes.
+
+Theorem C16_omit_by_only_removes : forall slack fn coll m rs m',
+  coll < length m ->
+  run_call slack (HOmitBy fn coll) m = Some (rs, m') ->
+  rs = [RM coll] /\ length m' = length m /\ incl (map_of m' coll) (map_of m coll) /\
+  (forall id, id <> coll -> arr_of m' id = arr_of m id).
+Proof. exact c16_omit_by_only_removes. Qed.
+Print Assumptions C16_omit_by_only_removes.
+
+(* 4c. PartitionMap assigns m[k] = v with the entry it has just read: when the
+   codes of its argument stand for maps the memory is unchanged, and the maps
+   are routed by reference *)
+Theorem C16_partition_map_writes_nothing : forall slack fn mtbl ms m rs m',
+  (forall c, is_map m (mtbl c)) ->
+  run_call slack (HPartitionMap fn mtbl ms) m = Some (rs, m') ->
+  m' = m /\ Forall (map_ref (image mtbl)) rs.
+Proof. exact c16_partition_map_writes_nothing. Qed.
+Print Assumptions C16_partition_map_writes_nothing.
+
+(* ---- 5. a result, once returned, is not altered by a later call on the same
+   arguments.  c1 builds its result in fresh storage and runs in m0, c2 (ANY
+   helper) afterwards; if c2 is in-place, its target existed before c1 (it is
+   an argument the two calls can share: [target_older_than]).  Then every
+   result r of c1 reads the same after c2.  (Views of an argument — results of
+   Drop, Chunk, Reject, Reverse, FromSlice, the map collections — follow the
+   argument, by 2-4.) ---- *)
+(* side condition [names_existing]: r names an object that exists when c1
+   returns (or is empty) — true of every reference a helper returns; without it
+   a made-up descriptor could name an object that c2 is about to allocate *)
 Theorem C16_earlier_results_survive : forall slack c1 c2 m0 rs1 m1 rs2 m2 r,
   run_call slack c1 m0 = Some (rs1, m1) ->
   run_call slack c2 m1 = Some (rs2, m2) ->
-  in_place_arg c1 = None -> view_arg c1 = None -> In r rs1 ->
-  s_arr r < length m1 \/ s_len r = 0 ->
-  (in_place_arg c2 = None \/ exists s, in_place_arg c2 = Some s /\ s_arr s < length m0) ->
-  read_all m2 r = read_all m1 r.
-Proof.
-  intros slack c1 c2 m0 rs1 m1 rs2 m2 r H1 H2 Hip1 Hv1 Hin Hex Hc2.
-  destruct Hex as [Hex|Hl]; [|now rewrite !read_all_empty].
-  destruct (C16_frame slack c1 m0 rs1 m1 Hip1 H1) as [_ HF].
-  specialize (HF Hv1). rewrite Forall_forall in HF. specialize (HF r Hin).
-  destruct HF as [Hfresh|[Hl _]]; [|now rewrite !read_all_empty].
-  apply read_all_same_array.
-  destruct Hc2 as [Hip2|(s & Hip2 & Hs)].
-  - destruct (C16_frame slack c2 _ rs2 m2 Hip2 H2) as [Hf _]. now apply frame_arr_of.
-  - apply (C16_in_place_other_arrays_untouched slack c2 s _ rs2 m2); auto. lia.
-Qed.
+  kind_of c1 = KFresh -> In r rs1 -> names_existing m1 r ->
+  target_older_than (length m0) c2 ->
+  read_ref m2 r = read_ref m1 r.
+Proof. exact c16_earlier_results_survive. Qed.
 Print Assumptions C16_earlier_results_survive.
 
 (* arguments (and views of them) after a later non-in-place call: the complete
    backing array is the same, so is everything any slice into it shows *)
 Theorem C16_arguments_survive : forall slack c m rs m' s,
-  in_place_arg c = None ->
+  not_in_place c ->
   run_call slack c m = Some (rs, m') ->
   s_arr s < length m ->
   arr_of m' (s_arr s) = arr_of m (s_arr s) /\ read_all m' s = read_all m s.
-Proof.
-  intros slack c m rs m' s Hip Hrun Hs.
-  destruct (C16_frame_arrays_and_reads slack c m rs m' Hip Hrun) as [Ha Hr]. auto.
-Qed.
+Proof. exact c16_arguments_survive. Qed.
 Print Assumptions C16_arguments_survive.
 
 (* ---- the code as found (DESIGN §7 #30): Merge appended onto its first
    argument.  s = array0[0:2] with capacity 4; Merge(s,[1]) returns [5,6,1];
    after Merge(s,[2]) the SAME result reads [5,6,2], and the spare capacity of
-   s has been overwritten. ---- *)
+   s has been overwritten.  (About the unrepaired code only; the repair is
+   commit 05f8f46 and [merge_go] is the repaired function.) ---- *)
 Theorem C16_merge_asfound_refuted :
   exists (m0 : mem) (s p1 p2 : slice) r1 m1 r2 m2,
     merge_asfound go_slack s [p1] m0 = Some (r1, m1) /\
@@ -160,13 +191,15 @@ Print Assumptions C16_merge_asfound_refuted.
 (* the repaired Merge on the same input: both results stand, s keeps its spare capacity *)
 Example C16_merge_repaired_example :
   exists r1 m1 r2 m2,
-    run_call go_slack (HMerge (mkSlice 0 0 2 4) [mkSlice 1 0 1 1]) [[5; 6; -1; -2]%Z; [1%Z]; [2%Z]] = Some ([r1], m1) /\
-    run_call go_slack (HMerge (mkSlice 0 0 2 4) [mkSlice 2 0 1 1]) m1 = Some ([r2], m2) /\
+    (* objects 1, 2: the parameters [1] and [2]; object 3: the two one-element parameter lists, as codes *)
+    let tbl := fun c : Z => mkSlice (Z.to_nat c) 0 1 1 in
+    run_call go_slack (HMerge (mkSlice 0 0 2 4) tbl (mkSlice 3 0 1 1)) [[5; 6; -1; -2]%Z; [1%Z]; [2%Z]; [1; 2]%Z] = Some ([rs r1], m1) /\
+    run_call go_slack (HMerge (mkSlice 0 0 2 4) tbl (mkSlice 3 1 1 1)) m1 = Some ([rs r2], m2) /\
     read_all m1 r1 = [5; 6; 1]%Z /\ read_all m2 r1 = [5; 6; 1]%Z /\ read_all m2 r2 = [5; 6; 2]%Z /\
     arr_of m2 0 = [5; 6; -1; -2]%Z.
 Proof. vm_compute. do 4 eexists. repeat split; reflexivity. Qed.
 
-(* the theorems discriminate: a Filter that builds on slice[:0] (DESIGN §10
+(* the theorems discriminate (1): a Filter that builds on slice[:0] (DESIGN §10
    mutant) overwrites its argument, so it does not satisfy [C16_frame] *)
 Theorem C16_filter_on_arg_refuted :
   exists (m : mem) (s : slice) r m',
@@ -176,63 +209,55 @@ Proof.
 Qed.
 Print Assumptions C16_filter_on_arg_refuted.
 
-(* non-vacuity: the calls do return on ordinary arguments (an in-place one, a
-   view, and a builder, on a slice with offset 1 and spare capacity 2) *)
+(* the theorems discriminate (2): the seeded change C16-2 — a Pick that
+   swap-removes the keys it finds from its variadic key slice — changes the key
+   array (object 1 below: keys = [0; 9] with sentinels around; map 0 = {0: 5}),
+   whereas the transcription of the real Pick leaves it alone *)
+Theorem C16_pick_swap_remove_refuted :
+  exists (m : mem) (keys : slice) r m',
+    pick_swap_remove 0 keys m = Some (r, m') /\ arr_of m' 1 <> arr_of m 1 /\
+    exists rs m'', run_call go_slack (HPick 0 keys) m = Some (rs, m'') /\ arr_of m'' 1 = arr_of m 1.
+Proof.
+  exists [[0; 5]%Z; [-1; 0; 9; -2]%Z], (mkSlice 1 1 2 3). vm_compute. do 2 eexists.
+  split; [reflexivity|]. split; [discriminate|]. do 2 eexists. split; reflexivity.
+Qed.
+Print Assumptions C16_pick_swap_remove_refuted.
+
+(* the theorems discriminate (3): after the seeded change C16-3 — an Intersection
+   that re-orders its variadic parameter list (object 3: the codes 0 1 2 of the
+   slices in objects 0 1 2) — the caller's [][]T is changed; the transcription
+   of the real Intersection leaves it alone *)
+Theorem C16_intersection_reordering_refuted :
+  let tbl := fun c : Z => mkSlice (Z.to_nat c) 0 2 2 in
+  exists (m : mem) (params : slice) r m',
+    intersection_reordering go_slack tbl params m = Some (r, m') /\ arr_of m' 3 <> arr_of m 3 /\
+    exists rs m'', run_call go_slack (HIntersection tbl params) m = Some (rs, m'') /\ arr_of m'' 3 = arr_of m 3
+                   /\ map (read_ref m'') rs = [[2]]%Z.
+Proof.
+  exists [[1; 2]%Z; [2; 3]%Z; [2; 1]%Z; [0; 1; 2]%Z], (mkSlice 3 0 3 3). vm_compute. do 2 eexists.
+  split; [reflexivity|]. split; [discriminate|]. do 2 eexists. repeat split; reflexivity.
+Qed.
+Print Assumptions C16_intersection_reordering_refuted.
+
+(* non-vacuity: the calls do return on ordinary arguments — an in-place one, a
+   view, builders, a scalar, map helpers with a key slice inside a backing
+   array (object 0: a slice with offset 1 and spare capacity 2; object 1: the
+   map {1: 7, 3: 8}) *)
 Example C16_calls_return :
-  let m := [[-1; 3; 1; 2; -2; -3]%Z] in let s := mkSlice 0 1 3 5 in
+  let m := [[-1; 3; 1; 2; -2; -3]%Z; [1; 7; 3; 8]%Z] in let s := mkSlice 0 1 3 5 in
   (exists rs m', run_call go_slack (HSort Z.ltb s) m = Some (rs, m') /\ arr_of m' 0 = [-1; 3; 2; 1; -2; -3]%Z) /\
-  (exists rs, run_call go_slack (HChunk s 2) m = Some (rs, m) /\ map (read_all m) rs = [[3; 1]; [2]]%Z) /\
-  (exists r m', run_call go_slack (HReject Z.even s) m = Some ([r], m') /\ read_all m' r = [3; 1]%Z
+  (exists rs, run_call go_slack (HChunk s 2) m = Some (rs, m) /\ map (read_ref m) rs = [[3; 1]; [2]]%Z) /\
+  (exists r m', run_call go_slack (HReject Z.even s) m = Some ([r], m') /\ read_ref m' r = [3; 1]%Z
                 /\ arr_of m' 0 = [-1; 3; 1; 2; -2; -3]%Z) /\
-  (exists r m', run_call go_slack (HUnique (mkSlice 0 0 6 6)) m = Some ([r], m') /\ read_all m' r = [-1; 3; 1; 2; -2; -3]%Z).
+  (exists r m', run_call go_slack (HUnique (mkSlice 0 0 6 6)) m = Some ([r], m') /\ read_ref m' r = [-1; 3; 1; 2; -2; -3]%Z) /\
+  (exists rs m', run_call go_slack (HGroupBy (fun v => Z.rem v 2) s) m = Some (rs, m')
+                 /\ map (read_ref m') rs = [[1; 3; 1]; [0; 2]]%Z /\ firstn 2 m' = m) /\
+  (exists m', run_call go_slack (HSum s) m = Some ([RV [6%Z]], m') /\ m' = m) /\
+  (exists r m', run_call go_slack (HPick 1 s) m = Some ([r], m') /\ read_ref m' r = [1; 7; 3; 8]%Z /\ firstn 2 m' = m) /\
+  (exists m', run_call go_slack (HOmit 1 s) m = Some ([RM 1], m') /\ m' = [[-1; 3; 1; 2; -2; -3]%Z; []]) /\
+  (exists rs m', run_call go_slack (HShuffle [2; 0; 0] s) m = Some (rs, m') /\ map (read_ref m') rs = [[1; 3; 2]]%Z
+                 /\ firstn 2 m' = m) /\
+  (* a []map argument: the slice s[0:2] = [3; 1] read as codes, every code standing for map 1 *)
+  (exists rs m', run_call go_slack (HPartitionMap (fun a => (2 <=? Z.of_nat (length a))%Z) (fun _ => 1) (mkSlice 0 1 2 2)) m = Some (rs, m')
+                 /\ rs = [RM 1; RM 1] /\ m' = m /\ is_map m 1).
 Proof. vm_compute. repeat split; repeat eexists. Qed.
-
-(* ------------------------------------------------------------------ *)
-(* map memory                                                           *)
-
-(* Omit / OmitBy: only the argument map changes — to exactly the map C14
-   describes — and it is the argument map that is returned *)
-Theorem C16_omit_only_that_map : forall id ks mm, id < length mm ->
-  let '(r, mm') := omit_mm id ks mm in
-  r = id /\ length mm' = length mm /\
-  (forall id', id' <> id -> mm_get mm' id' = mm_get mm id') /\
-  mm_get mm' id = omit (mm_get mm id) ks.
-Proof.
-  intros id ks mm Hid. unfold omit_mm.
-  destruct (omit_mm_loop (key_in ks) id (mm_get mm id) mm Hid) as (L & O & S).
-  split; [reflexivity|]. split; [exact L|]. split; [exact O|exact S].
-Qed.
-Print Assumptions C16_omit_only_that_map.
-
-Theorem C16_omit_by_only_that_map : forall id fn mm, id < length mm ->
-  let '(r, mm') := omit_by_mm id fn mm in
-  r = id /\ length mm' = length mm /\
-  (forall id', id' <> id -> mm_get mm' id' = mm_get mm id') /\
-  mm_get mm' id = omit_by fn (mm_get mm id).
-Proof.
-  intros id fn mm Hid. unfold omit_by_mm.
-  destruct (omit_mm_loop (kv_ok fn) id (mm_get mm id) mm Hid) as (L & O & S).
-  split; [reflexivity|]. split; [exact L|]. split; [exact O|exact S].
-Qed.
-Print Assumptions C16_omit_by_only_that_map.
-
-(* PartitionMap assigns m[k] = v with the entry it has just read: the map
-   memory is unchanged, and the non-empty maps are routed by reference *)
-Theorem C16_partition_map_writes_nothing : forall fn ids mm,
-  partition_map_mm fn ids mm =
-  ((filter (fun id => fn (mm_get mm id)) (nonempty_ids mm ids),
-    filter (fun id => negb (fn (mm_get mm id))) (nonempty_ids mm ids)), mm).
-Proof. intros fn ids mm. unfold partition_map_mm. now rewrite partition_map_mm_loop. Qed.
-Print Assumptions C16_partition_map_writes_nothing.
-
-(* the read-only builders (Pick, FilterMap, MapValues as representatives)
-   allocate their result and leave every existing map alone *)
-Theorem C16_map_builders_frame : forall id ks pfn vfn mm,
-  (exists new, snd (pick_mm id ks mm) = mm ++ new) /\
-  snd (filter_map_mm id pfn mm) = mm ++ [filter_map pfn (mm_get mm id)] /\
-  snd (map_values_mm id vfn mm) = mm ++ [map_values vfn (mm_get mm id)].
-Proof.
-  intros id ks pfn vfn mm. split; [|split; reflexivity].
-  unfold pick_mm. destruct (pick (mm_get mm id) ks); cbn; eauto. exists []. now rewrite app_nil_r.
-Qed.
-Print Assumptions C16_map_builders_frame.
